@@ -38,6 +38,7 @@ type hscript struct {
 	Hold       bool // wait for a release by the workload
 	RespectCtx bool // a cancelled context ends the hold
 	Outcome    int  // 0 result, 1 application error, 2 ctx.Err() if cancelled else result
+	ErrCode    int  // code of the application error (Outcome 1); also codes the protocol reserves
 	Push       int  // 0 none, 1 Notify, 2 Callback from inside the handler
 	CancelID   string
 }
@@ -273,7 +274,9 @@ func (w *srvWorld) genScript() hscript {
 	s := hscript{Steps: g.Int("hsteps", 4)}
 	s.Hold = g.Chance("hold", w.cfg.HoldP)
 	s.RespectCtx = g.Chance("respect", 0.5)
-	s.Outcome = g.Weighted("outcome", []int{6, 2, 2})
+	s.Outcome = g.Weighted("outcome", []int{6, 3, 2})
+	// a handler may return any code, including the ones the protocol uses itself
+	s.ErrCode = []int{0, 0, 0, -32600, -32700, -32602, -32603, -32601}[g.Int("errcode", 8)]
 	return s
 }
 
@@ -550,7 +553,10 @@ func (w *srvWorld) handle(ctx context.Context, req *jrpc2.Request) (any, error) 
 	var err error
 	switch m.Script.Outcome {
 	case 1:
-		err = jrpc2.Errorf(jrpc2.Code(7000+m.Msg), "app error %s", m.Tag)
+		if m.Script.ErrCode == 0 {
+			m.Script.ErrCode = 7000 + m.Msg
+		}
+		err = jrpc2.Errorf(jrpc2.Code(m.Script.ErrCode), "app error %s", m.Tag)
 	case 2:
 		if e := ctx.Err(); e != nil {
 			err = e
@@ -1141,7 +1147,7 @@ func (w *srvWorld) checkResp(m *member, o respObj) string {
 			if !o.HasErr {
 				return fmt.Sprintf("%s: handler returned error %q but response is a result %s", m.Tag, m.HErr, o.Result)
 			}
-			if m.Script.Outcome == 1 && (o.Code != 7000+m.Msg || !strings.Contains(o.Message, m.Tag)) {
+			if m.Script.Outcome == 1 && (o.Code != m.Script.ErrCode || !strings.Contains(o.Message, m.Tag)) {
 				return fmt.Sprintf("%s: error response %d %q does not carry the handler's error %q", m.Tag, o.Code, o.Message, m.HErr)
 			}
 			return ""
